@@ -374,13 +374,15 @@ def oracle_index(ctx, bf, idx, case):
         if e.lrType in (128, 129, 130, 131, 132, 133, 64):
             got.append((e.tell, e.lrType, None))
         elif e.lrType in (32, 34, 39):
-            got.append((e.tell, e.lrType, e.name))
+            got.append((e.tell, e.lrType, getattr(e, 'name', ('no-name', type(e).__name__))))
     if len(got) != len(want):
         return ctx.fail(case, 'index lists %d header/trailer/table/format records, file has %d' % (len(got), len(want)))
     from gen import lislog
     for g, w in zip(got, want):
         if g[:2] != w[:2]:
             return ctx.fail(case, 'index entry (tell,type) %s, true %s' % (g[:2], w[:2]))
+        if isinstance(g[2], tuple) and g[2][:1] == ('no-name',):
+            return ctx.fail(case, 'table record at %d indexed as %s without a name' % (g[0], g[2][1]))
         if isinstance(w[2], bytes) and g[2] != w[2]:
             return ctx.fail(case, 'table at %d named %r, true %r' % (g[0], g[2], w[2]))
         if isinstance(w[2], tuple):
